@@ -1626,9 +1626,15 @@ func (h *Hashgraph) CheckBlock(block *Block, peerSet *peers.PeerSet) error {
 		return fmt.Errorf("Wrong PeerSet")
 	}
 
-	validSignatures := 0
+	// Count each validator at most once: several keys of the Signatures map may
+	// decode to the same public key (hex is case-insensitive and the 2-character
+	// prefix is not checked).
+	counted := make(map[string]bool)
 	for _, s := range block.GetSignatures() {
 		validatorHex := s.ValidatorHex()
+		if counted[validatorHex] {
+			continue
+		}
 		if _, ok := peerSet.ByPubKey[validatorHex]; !ok {
 			h.logger.WithFields(logrus.Fields{
 				"validator": validatorHex,
@@ -1637,10 +1643,11 @@ func (h *Hashgraph) CheckBlock(block *Block, peerSet *peers.PeerSet) error {
 		}
 		ok, _ := block.Verify(s)
 		if ok {
-			validSignatures++
+			counted[validatorHex] = true
 		}
 	}
 
+	validSignatures := len(counted)
 	if validSignatures <= peerSet.TrustCount() {
 		return fmt.Errorf("Not enough valid signatures: got %d, need %d", validSignatures, peerSet.TrustCount())
 	}
